@@ -21,6 +21,24 @@ func signTree(t Tree, dir string) *pwr.SignatureInfo {
 	return &pwr.SignatureInfo{Container: c, Hashes: h}
 }
 
+// shuffleDirs permutes the container's directory (and symlink) lists: their order is not part of a
+// signature's meaning (containers walked from a zip list directories in map order, children before
+// parents included), block hashes only depend on the order of files.
+func shuffleDirs(si *pwr.SignatureInfo, seed uint64) {
+	r := NewRng(seed)
+	d := si.Container.Dirs
+	for i := len(d) - 1; i > 0; i-- {
+		j := r.Intn(i + 1)
+		d[i], d[j] = d[j], d[i]
+	}
+	l := si.Container.Symlinks
+	for i := len(l) - 1; i > 0; i-- {
+		j := r.Intn(i + 1)
+		l[i], l[j] = l[j], l[i]
+	}
+	Ev.Probe("container_dirs_and_symlinks_listed_in_shuffled_order")
+}
+
 // woundOracle checks the wounds reported for a damaged tree against the signed tree.
 func woundOracle(c *tlc.Container, signed, damaged Tree, wounds []*pwr.Wound) (class, msg string) {
 	real := 0
@@ -114,7 +132,7 @@ func TestC05(t *testing.T) {
 	Ev.Component("directory under validation (stored-data faults), goroutine schedule / select choice", "simulated")
 	Prop(t, "C05", func(rt *rapid.T) {
 		signed := GenTree(rt, GenOpts{Links: true, EmptyDirs: true, LowEntropy: true, MaxMid: 300 * KiB, Big: rapid.IntRange(0, 19).Draw(rt, "allowbig") == 0}, rapid.Uint64Range(0, 1<<20).Draw(rt, "poolseed"))
-		faults := GenFaults(rt, signed, FaultOpts{Content: true, Delete: true, KindSwap: true, Links: true, MaxFaults: 5})
+		faults := GenFaults(rt, signed, FaultOpts{Content: true, Delete: true, KindSwap: true, Links: true, Special: true, MaxFaults: 5})
 		if rapid.IntRange(0, 14).Draw(rt, "longwound") == 0 {
 			// a long run of adjacent damaged blocks (more than the 4 MiB aggregation limit)
 			sz := 4*MiB + rapid.IntRange(1, 6).Draw(rt, "longblocks")*BlockSize + rapid.IntRange(0, 2000).Draw(rt, "longtail")
@@ -130,6 +148,9 @@ func TestC05(t *testing.T) {
 		dir, cleanup := RunDir()
 		defer cleanup()
 		si := signTree(signed, filepath.Join(dir, "signed"))
+		if rapid.IntRange(0, 2).Draw(rt, "shuffledirs") == 0 {
+			shuffleDirs(si, rapid.Uint64().Draw(rt, "shuffleseed"))
+		}
 		target := filepath.Join(dir, "target")
 		Must(damaged.Materialize(target), "materialize damaged")
 		countFaults(applied)
